@@ -110,7 +110,12 @@ def estimate_call(which, num, n, l2, maxn, maxit, rng, sheared=False):
     else:
         ds = SimpleNamespace(number=num, std_types=np.array([1] * n, dtype="intc"), std_lattice=L)
         res = estimate_supercell_matrix(ds, max_num_atoms=maxn, max_iter=maxit)
-    return [int(x) for x in res]
+    return as_ints(res)
+
+
+def as_ints(res):
+    """multiplicities as returned; anything that is not an integer becomes -1 (refused by Pos3 in the specification)"""
+    return [int(x) if isinstance(x, (int, np.integer)) and not isinstance(x, bool) else -1 for x in res]
 
 
 def estimate_xtal_events(entries, rng, next_id, maxns, maxits):
@@ -136,7 +141,7 @@ def estimate_xtal_events(entries, rng, next_id, maxns, maxits):
             for maxit in maxits:
                 kw = {} if maxit is None else dict(max_iter=maxit)
                 res = estimate_supercell_matrix(ds, max_num_atoms=maxn, **kw)
-                runs.append(dict(maxn=maxn, maxit=100 if maxit is None else maxit, res=[int(x) for x in res]))
+                runs.append(dict(maxn=maxn, maxit=100 if maxit is None else maxit, res=as_ints(res)))
         out.append(dict(id=next_id(), kind="estxtal", crystal=e["name"], Pm=P.astype(int).tolist(), runs=runs, spg=int(ds.number)))
     return out, skipped
 
@@ -190,7 +195,7 @@ def random_unimodular(rng, steps):
 
 
 def reduce_events(rng, next_id, n_random, n_variants):
-    from phonopy.structure.cells import get_reduced_bases
+    from phonopy.structure.cells import determinant, get_reduced_bases
 
     grams = list(GRAMS.items()) + [("rand%d" % k, random_gram(rng)) for k in range(n_random)]
     out = []
@@ -209,12 +214,13 @@ def reduce_events(rng, next_id, n_random, n_variants):
                 R = get_reduced_bases(L, method=method)
                 if R is None:
                     out.append(dict(id=next_id(), kind="reduce", method=method, Gin=Gin.tolist(), Tm=np.eye(3, dtype=int).tolist(),
-                                    exact=False, gram=name, note="returned None"))
+                                    exact=False, det=1, gram=name, note="returned None"))
                     continue
                 T = np.asarray(R) @ np.linalg.inv(L)
                 Tr = np.rint(T)
                 exact = bool(np.abs(T - Tr).max() < 1e-6 and np.abs(Tr).max() < 200)
                 out.append(dict(id=next_id(), kind="reduce", method=method, Gin=Gin.tolist(), Tm=Tr.astype(int).tolist(), exact=exact,
+                                det=int(determinant(Tr.astype(int).tolist())) if exact else 0,
                                 gram=name, resid=float(np.abs(T - Tr).max())))
     return out
 
@@ -266,7 +272,7 @@ def isclose_replay(rows, D, rng):
     L2[2] *= 1.01
     lattices = {1: L1, 2: L2}
     bad = []
-    for a, b, ordered, anyorder, order in rows:
+    for a, b, ordered, anyorder, order, _ in rows:
         ca, cb = close_cell(a, D, lattices), close_cell(b, D, lattices)
         got = dict(ordered=bool(isclose(ca, cb)), ordered_rev=bool(isclose(cb, ca)),
                    anyorder=bool(isclose(ca, cb, with_arbitrary_order=True)), anyorder_rev=bool(isclose(cb, ca, with_arbitrary_order=True)))
@@ -318,7 +324,7 @@ def pmat_replay(table, rng):
             if dets[dc] == 1.0 and rep == 0:
                 M = np.eye(3, dtype=int)
             arg = dict(letter="PFIACR"[(rep * 2 + len(dc)) % 6], auto="auto", none=None, matrix=M, flat9=M.ravel().tolist(),
-                       flat8=M.ravel().tolist()[:8], word=["B", "primitive", "f"][rep])[kind]
+                       flat8=M.ravel().tolist()[:8], word=["B", "primitive", "f"][rep], words9=["%g" % v for v in M.ravel()])[kind]
             n += 1
             try:
                 r = get_primitive_matrix(arg)
@@ -332,6 +338,24 @@ def pmat_replay(table, rng):
             if got != want:
                 bad.append(dict(kind=kind, determinant=dets[dc], argument=repr(arg)[:200], expected=want, got=got))
     return bad, n
+
+
+def shape_replay(table):
+    from phonopy.structure.cells import shape_supercell_matrix
+
+    bad = []
+    for kind, v, want in table:
+        arg = dict(none=None, three=list(v[:3]), nine=list(v), matrix=np.array(v).reshape(3, 3), two=list(v[:2]), four=np.array(v[:4]).reshape(2, 2))[kind]
+        try:
+            got = np.asarray(shape_supercell_matrix(arg)).tolist()
+        except RuntimeError:
+            got = "error"
+        except Exception as ex:
+            got = "crash:" + type(ex).__name__
+        w = want if isinstance(want, str) else [list(r) for r in want]
+        if got != w:
+            bad.append(dict(kind=kind, argument=repr(arg), expected=w, got=got))
+    return bad
 
 
 def primitive_list_replay(rows):
@@ -376,7 +400,8 @@ def _project(obj):
     cart_ok = bool(np.allclose(obj.positions, obj.scaled_positions @ obj.cell, rtol=0, atol=1e-12))
     return dict(symbols=list(obj.symbols), numbers=[int(v) for v in obj.numbers], numbers_with_shifts=[int(v) for v in obj.numbers_with_shifts],
                 masses=None if m is None else [float(v) for v in m], mag=None if g is None else np.asarray(g).tolist(),
-                cell=np.asarray(obj.cell).tolist(), spos=np.asarray(obj.scaled_positions).tolist(), n=len(obj)), ok_tuple and cart_ok
+                cell=np.asarray(obj.cell).tolist(), spos=np.asarray(obj.scaled_positions).tolist(), n=len(obj),
+                formula=obj.formula, reduced=obj.reduced_formula, volume=float(obj.volume)), ok_tuple and cart_ok
 
 
 def _same(exp, got, tol):
@@ -484,7 +509,7 @@ def atoms_replay(rows, decimals):
     bad = {}
     failing = set()
     rows = sorted(rows, key=lambda r: len(r[0]))      # prefixes first: a history is blamed on its first diverging step
-    for hist, status, objs in rows:
+    for hist, status, objs, derived in rows:
         got_status, proj, tuple_ok = run_history(hist, decimals)
         last = hist[-1]
         cls = last["op"] + (":" + last["arg"] if isinstance(last["arg"], str) else "")
@@ -501,6 +526,9 @@ def atoms_replay(rows, decimals):
                     if f:
                         why = "object %d: %s" % (k + 1, f)
                         break
+                    if (g["formula"], g["reduced"]) != (derived[k]["formula"], derived[k]["reduced"]) or abs(g["volume"] - derived[k]["volume"]) > 1e-12:
+                        why = "object %d: formula / reduced_formula / volume %r, expected %r" % (k + 1, (g["formula"], g["reduced"], g["volume"]), derived[k])
+                        break
                 if why is None and not tuple_ok:
                     why = "totuple/positions inconsistent with the attributes"
         if why:
@@ -510,3 +538,95 @@ def atoms_replay(rows, decimals):
             bad.setdefault(cls, []).append(dict(history=hist, expected_status=status, got_status=got_status, differs_in=why,
                                                 expected=[_abstract_expected(x) for x in objs] if status == "ok" else None, got=proj))
     return bad
+
+
+# ------------------------------------------------------------------------------------------------
+def yaml_events(entries, rng, next_id):
+    """str(cell) -> yaml -> parse_cell_dict on cells with non-dyadic numbers; per field the decimals found in the text and
+    the worst read-back error in units of 10^-(decimals + 3)."""
+    import re
+
+    import yaml
+    from phonopy.structure.atoms import PhonopyAtoms, parse_cell_dict
+
+    out = []
+    for k, e in enumerate(entries):
+        n = len(e["atoms"])
+        L = xtal.lattice_from_gram(e["G"], a=float(rng.uniform(1.5, 7.0)), rng=rng)
+        pos = np.array([at["num"] for at in e["atoms"]], dtype=float) / e["D"] + (rng.uniform(-1, 1, size=(n, 3)) if k % 2 else 0.0)
+        ext = k % 3 == 0
+        symbols = [SYMS[at["sp"]] + (str(1 + i % 2) if ext else "") for i, at in enumerate(e["atoms"])]
+        masses = rng.uniform(1.0, 200.0, size=n) if (ext or k % 4 == 1) else None
+        mag = None if k % 3 == 1 else (rng.uniform(-3, 3, size=n) if k % 3 == 2 else rng.uniform(-3, 3, size=(n, 3)))
+        cell = PhonopyAtoms(symbols=symbols, scaled_positions=pos, cell=L, masses=masses, magnetic_moments=mag)
+        text = str(cell)
+        try:
+            back = parse_cell_dict(yaml.safe_load(text))
+            same = bool(back.symbols == cell.symbols and list(back.numbers_with_shifts) == list(cell.numbers_with_shifts)
+                        and (back.magnetic_moments is None) == (mag is None)
+                        and (mag is None or back.magnetic_moments.shape == cell.magnetic_moments.shape))
+        except Exception as ex:
+            out.append(dict(id=next_id(), kind="yaml", field="lattice", shown=0, err=1000000, ulp=0, same=False, crystal=e["name"],
+                            exception="%s: %s" % (type(ex).__name__, str(ex)[:100])))
+            continue
+        pats = dict(lattice=r"^- \[(.*)\] # [abc]$", coordinates=r"^  coordinates: \[(.*)\]$", mass=r"^  mass: (.*)$",
+                    magnetic_moment=r"^  magnetic_moment: \[?([^\]]*)\]?$")
+        pairs = dict(lattice=(cell.cell, back.cell), coordinates=(cell.scaled_positions, back.scaled_positions),
+                     mass=(cell.masses, back.masses), magnetic_moment=(cell.magnetic_moments, back.magnetic_moments))
+        for field, (x, y) in pairs.items():
+            if field == "magnetic_moment" and (x is None or not same):
+                continue
+            shown = min((len(tok.strip().split(".")[1]) if "." in tok else 0)
+                        for line in text.splitlines() for m in [re.match(pats[field], line)] if m for tok in m.group(1).split(","))
+            x, y = np.asarray(x, dtype=float), np.asarray(y, dtype=float)
+            unit = 10.0 ** (-(shown + 3))
+            if x.shape != y.shape:
+                err, ulp = 1000000, 0
+            else:
+                err = int(min(1000000, np.ceil(np.abs(x - y).max() / unit)))
+                ulp = int(min(1000000, np.ceil(np.spacing(np.abs(x).max()) / unit)))
+            out.append(dict(id=next_id(), kind="yaml", field=field, shown=int(shown), err=err, ulp=ulp, same=same, crystal=e["name"],
+                            extended_symbols=ext))
+    return out
+
+
+def convert_replay(rows, D, rng):
+    """convert_to_phonopy_primitive(supercell of a, b) against ConvertReq and the definition of the result."""
+    from phonopy.structure.cells import convert_to_phonopy_primitive, get_supercell
+
+    L1 = xtal.lattice_from_gram([[4, 1, 1], [1, 5, 2], [1, 2, 6]], a=1.7, rng=rng)
+    lattices = {1: L1, 2: L1}
+    mats = [np.diag([2, 1, 1]), np.array([[1, 1, 0], [-1, 1, 0], [0, 0, 2]]), np.diag([1, 2, 2]), np.array([[1, 0, 1], [0, 1, 0], [-1, 0, 2]])]
+    bad, n = [], 0
+    for k, (a, b, ordered, anyorder, order, allowed) in enumerate(rows):
+        if a["lat"] != b["lat"]:
+            continue
+        S = mats[k % len(mats)]
+        ca, cb = close_cell(a, D, lattices), close_cell(b, D, lattices)
+        sc = get_supercell(ca, S)
+        n += 1
+        why = None
+        try:
+            P = convert_to_phonopy_primitive(sc, cb)
+            got = "ok"
+        except RuntimeError:
+            got = "refused"
+        except Exception as ex:
+            got = "crash:%s" % type(ex).__name__
+        if got not in allowed:
+            why = "accepted/refused"
+        elif got == "ok":
+            inv = np.linalg.inv(cb.cell)
+            x = P.scaled_positions * D
+            y = sc.positions[P.p2s_map] @ inv * D
+            want = np.array([at["num"] for at in b["atoms"]], dtype=float)
+            syms = [SYMS[at["sp"]] for at in b["atoms"]]
+            if len(P) != len(want) or list(P.symbols) != syms or [sc.symbols[i] for i in P.p2s_map] != syms:
+                why = "species of the result / of the mapped supercell atoms"
+            elif np.abs(P.cell - cb.cell).max() > 1e-10:
+                why = "basis of the result"
+            elif (np.abs((x - want) / D - np.rint((x - want) / D)).max() > 1e-9 or np.abs((y - want) / D - np.rint((y - want) / D)).max() > 1e-9):
+                why = "positions of the result / of the mapped supercell atoms"
+        if why:
+            bad.append(dict(a=a, b=b, supercell_matrix=S.tolist(), allowed=sorted(allowed), got=got, differs_in=why))
+    return bad, n
